@@ -74,6 +74,14 @@ def corpus(thorough):
                               dims=["elem", "op", "factor", "wrap", "arity", "restr"] if thorough else ["elem", "op", "arity", "restr"])
     for k, cfg in n3.items():
         items.append(("diagonal", k, cfg))
+    # every vector-valued / mixed element x every operator that couples its components (the diagonal must not pick up coupling blocks)
+    for c in dcells[:2] if not thorough else dcells:
+        for el in ("vP1", "vP2", "vDG1", "TH", "vP1xP1", "RTxDG0", "nested", "N1curl1", "RT1", "BDM1"):
+            for opn in ("csum", "divcurl", "grad"):
+                for it in ("dx", "dS") if c != "prism" else ("dx",):
+                    cfg = dict(space.apply(space.baseline(c, it), "elem", el), op=opn)
+                    if space.key(cfg) not in n3:
+                        items.append(("diagonal", space.key(cfg), cfg))
     items.append(("diagonal-multi", "two mixed forms in one request", dict(cell="triangle")))
     # --- tolerances
     tol_cfgs, e4, _ = space.explore([space.baseline(c, "dx") for c in ("triangle", "quadrilateral", "tetrahedron")] + [space.baseline("triangle", "dS")], 1,
